@@ -115,3 +115,106 @@ def strip_for_tlc(trace: dict) -> dict:
             e["result"] = r
         evs.append(e)
     return {"cfg": trace["cfg"], "events": evs}
+
+
+# --------------------------------------------------------------------------
+# sessions: several runs on the same pipeline / detector objects, reconfigured in between
+
+def record_session(cfg: dict, ops: list, construction: str = "python", debug: bool = False,
+                   hier: bool = False, kind: str = "ccd", extra: dict | None = None,
+                   rows: int = 2, cols: int = 3) -> dict:
+    """`ops`: ["run"] | ["toggle", g, m, how] | ["setargs", g, m, text] | ["resched", times, start, nd]
+    | ["peek", what].  g is the 1-based group index, m the 1-based position in the group.
+    Returns {cfg (initial), events, meta}; events of all runs with `restart` between them and
+    one event per reconfiguration (the vocabulary of PipelineTrace)."""
+    import pyxel
+    from pyxel.exposure import Exposure
+
+    meta = {"construction": construction, "debug": debug, "hier": hier, "detector": kind,
+            "session": ops}
+    cur = copy.deepcopy(cfg)
+    try:
+        if construction == "yaml":
+            conf = pyxel.loads(px.yaml_document(cur, extra=extra, rows=rows, cols=cols, kind=kind))
+            mode, det, pipe = conf.running_mode, conf.detector, conf.pipeline
+        else:
+            det = px.make_detector(kind, rows, cols)
+            pipe = px.build_pipeline(cur, extra, shape=(rows, cols))
+            mode = Exposure(readout=px.build_readout(cur, "list"))
+        px.load_prior(det, cur["prior"], cur.get("imgdt", "uint16"))
+    except Exception:
+        return {"cfg": cfg, "events": [{"e": "harness-error", "why": traceback.format_exc()[-400:]}],
+                "meta": meta}
+    events: list = []
+    ran = False          # a run was closed and no restart emitted yet
+
+    def restart_if_needed():
+        nonlocal ran
+        if ran:
+            events.append({"e": "restart"})
+            ran = False
+
+    for op in ops:
+        what = op[0]
+        try:
+            if what == "run":
+                restart_if_needed()
+                pm.SINK.reset()
+                try:
+                    dt = pyxel.run_mode(mode, det, pipe, debug=debug, with_inherited_coords=hier)
+                except Exception as exc:
+                    events.extend(pm.SINK.events)
+                    pe = px.project_exception(exc)
+                    events.append({"e": "failed", "exc": pe["exc"], "msg": pe["msg"], "g": pe["g"],
+                                   "name": pe["name"], "noresult": True})
+                else:
+                    events.extend(pm.SINK.events)
+                    events.append({"e": "done", "result": px.project_result(dt)})
+                ran = True
+            elif what == "toggle":
+                _, g, m, how = op
+                restart_if_needed()
+                model = cur["pipe"][g - 1][m - 1]
+                group = getattr(pipe, px.GROUPS[g - 1])
+                target = group.models[m - 1]
+                if how == "getattr":
+                    target = getattr(group, model["name"])
+                elif how == "get_model":
+                    same = [mm for grp in cur["pipe"] for mm in grp if mm["name"] == model["name"]]
+                    if len(same) == 1:
+                        target = pipe.get_model(model["name"])
+                target.enabled = not model["enabled"]
+                model["enabled"] = not model["enabled"]
+                events.append({"e": "toggle", "g": g, "m": m})
+            elif what == "setargs":
+                _, g, m, text = op
+                restart_if_needed()
+                model = cur["pipe"][g - 1][m - 1]
+                target = getattr(pipe, px.GROUPS[g - 1]).models[m - 1]
+                if set(px.model_user_args(model["args"])) != {"a"} or set(px.model_user_args(text)) != {"a"}:
+                    continue         # only the value of an existing argument can be assigned
+                target.arguments["a"] = text
+                model["args"] = text
+                events.append({"e": "setargs", "g": g, "m": m, "args": text})
+            elif what == "resched":
+                _, times, start, nd = op
+                restart_if_needed()
+                cur["times"], cur["start"], cur["nd"] = list(times), start, nd
+                mode = Exposure(readout=px.build_readout(cur, "list"))
+                events.append({"e": "resched", "times": list(times), "start": start, "nd": nd})
+            elif what == "peek":
+                # operations that must not have any effect
+                if op[1] == "repr":
+                    repr(pipe)
+                    [repr(getattr(pipe, gname)) for gname in px.GROUPS if getattr(pipe, gname, None)]
+                elif op[1] == "iter":
+                    [list(getattr(pipe, gname)) for gname in px.GROUPS if getattr(pipe, gname, None)]
+                    list(pipe)
+                elif op[1] == "describe":
+                    list(pipe.describe()) if hasattr(pipe, "describe") else None
+                elif op[1] == "dir":
+                    [dir(getattr(pipe, gname)) for gname in px.GROUPS if getattr(pipe, gname, None)]
+        except Exception:
+            events.append({"e": "harness-error", "why": traceback.format_exc()[-400:]})
+            break
+    return {"cfg": cfg, "events": events, "meta": meta}
